@@ -43,6 +43,7 @@ class Interposer:
         self.shuffle_listdir = shuffle_listdir
         self._saved = {}
         self.active = False
+        self.fs_hook = None      # called for every successful mutating call (C03 call log)
 
     # -- the single choke point ------------------------------------------
     def call(self, name, fn, args, kwargs):
@@ -70,6 +71,8 @@ class Interposer:
         return r
 
     def _rec(self, name, args, res):
+        if self.fs_hook is not None and res == 'ok':
+            self.fs_hook(name, args)
         self.seq += 1
         self.log.append({'seq': self.seq, 'thread': _threading.current_thread().name, 'call': name,
                          'args': _short(args), 'res': res})
